@@ -27,7 +27,9 @@ RES=""
 for P in "$@"; do
   O=$(cd /verif && timeout 1500 ./check $P --tier quick 2>&1 | grep -E 'VIOLATION|^\[check' | tr '\n' ' ')
   echo "  $P: $O"
-  RES="$RES $P=$(echo "$O" | grep -c VIOLATION)"
+  V=$(echo "$O" | grep -c VIOLATION)
+  if echo "$O" | grep -q no-failing-input-found; then V="tie"; fi
+  RES="$RES $P=$V"
 done
 git -C /repo checkout -- . ; git -C /repo status --short | grep -v '^??' | head -3
 echo "RESULT $ID demo_clean=$CLEAN demo_mut=$MUT $RES" | tee $OUT/result.txt
